@@ -933,3 +933,110 @@ Section Agreement.
     intros Hsp Hcov Hw Hu Hu0. destruct (sst_spec ia E Hsp Hcov x Hw) as (_ & Hd & ->). now apply agree_term.
   Qed.
 End Agreement.
+
+(* ================================================================================== *)
+(* 7. the regenerated tables, and non-vacuity                                           *)
+(* ================================================================================== *)
+From Nv Require Import Proofs.LexPTables.
+
+(* ASCII with ASCII, LaTeX with LaTeX, Han with Han; char::is_alphanumeric = the table dumped from std *)
+Lemma shipped_agree_all : forallb (fun p => agree_all std_alnum (fst p) (snd p)) shipped_pairs = true.
+Proof. vm_compute. reflexivity. Qed.
+
+Lemma shipped_agree_all_In E L : In (E, L) shipped_pairs -> agree_all std_alnum E L = true.
+Proof. intros H. exact (forallb_In (fun p => agree_all std_alnum (fst p) (snd p)) _ (E, L) shipped_agree_all H). Qed.
+
+(* the check is not vacuous: formats of different names do not pass it, and a name-character oracle that
+   accepts a whitespace character does not either *)
+Lemma agree_ok_discriminates :
+  agree_ok std_alnum FORMAT_ASCII LEX_LATEX = false /\ agree_ok std_alnum FORMAT_HAN LEX_ASCII = false /\
+  agree_ok (fun _ => true) FORMAT_ASCII LEX_ASCII = false.
+Proof. vm_compute. repeat split; reflexivity. Qed.
+
+Theorem agree_term_shipped (F : Type) E L t v :
+  In (E, L) shipped_pairs ->
+  odesugar t = Some v -> SstOk.unamb std_alnum E t [] = true -> SstOk.unamb std_alnum E (respace 0 t) [] = true ->
+  parse_term F std_alnum E (new_state F (render E t)) =
+    POk v (step F (length (render E t)) (new_state F (render E t))) /\
+  lex_then_fold std_alnum L E (render E t) = FOk v.
+Proof. intros Hin. apply agree_term. now apply shipped_agree_all_In. Qed.
+
+Theorem agree_term_fmt_shipped (F : Type) E L x :
+  In (E, L) shipped_pairs ->
+  wf_term std_alnum E x = true ->
+  SstOk.unamb std_alnum E (sst E x) [] = true -> SstOk.unamb std_alnum E (respace 0 (sst E x)) [] = true ->
+  parse_term F std_alnum E (new_state F (fmt_term E x)) =
+    POk x (step F (length (fmt_term E x)) (new_state F (fmt_term E x))) /\
+  lex_then_fold std_alnum L E (fmt_term E x) = FOk x.
+Proof.
+  intros Hin. assert (HE : In E shipped_formats).
+  { destruct Hin as [H|[H|[H|[]]]]; injection H as <- _; unfold shipped_formats; cbn [In]; auto. }
+  pose proof shipped_fmt_side as (Hs & _). pose proof (forallb_In _ _ _ Hs HE) as H. cbn beta in H.
+  rewrite !andb_true_iff in H. destruct H as [[H1 H2] _].
+  apply agree_term_fmt; auto. now apply shipped_agree_all_In.
+Qed.
+
+(* ---- examples ---- *)
+Definition fres_is (v : term) (r : fres term) : bool :=
+  match r with FOk v' => term_eqb v v' | _ => false end.
+
+(* every hypothesis of agree_term holds for t in (E, L), and -- re-computed -- both pipelines return the
+   documented meaning *)
+Definition ex_agree (p : efmt * lfmt) (t : sterm) : bool :=
+  let E := fst p in let L := snd p in
+  agree_all std_alnum E L && SstOk.unamb std_alnum E t [] && SstOk.unamb std_alnum E (respace 0 t) [] &&
+  match odesugar t with
+  | Some v =>
+      fres_is v (of_door unit (parse_term unit std_alnum E (new_state unit (render E t)))) &&
+      fres_is v (lex_then_fold std_alnum L E (render E t))
+  | None => false
+  end.
+
+(* the two trees of Proofs/EnumTermCor.v (instance / instance-property / property / retrospective
+   equivalence copulas, both images, interval, sets, negation, product, all variable kinds, an operator,
+   a placeholder written with trailing text), with 0, 1 and 3 spaces at every token boundary *)
+Example ex_agree_all_formats :
+  forallb (fun p => ex_agree p (ex_tree 0) && ex_agree p (ex_tree 1) && ex_agree p (ex_tree 3) &&
+                    ex_agree p (ex_tree2 0) && ex_agree p (ex_tree2 2)) shipped_pairs = true.
+Proof. vm_compute. reflexivity. Qed.
+
+(* one of them spelled out: ASCII, 2 spaces; the text, the lexical value, the common result *)
+Example ex_agree_ascii_text :
+  let t := SStmt arm_instance 2 2 2 2 (SAtom arm_word [114; 111; 98]%N)
+                 (SComp arm_image_ext 2 (fun _ => (2, 2)%nat) [SAtom arm_placeholder []; SAtom arm_interval [48; 55]%N] 2) in
+  render FORMAT_ASCII t =
+    [60; 32; 32; 114; 111; 98; 32; 32; 123; 45; 45; 32; 32; 40; 32; 32; 47; 32; 32; 44; 32; 32; 95; 32; 32; 44; 32; 32; 43; 48; 55;
+     32; 32; 41; 32; 32; 62]%N /\
+  lex_parse_term std_alnum LEX_ASCII (render FORMAT_ASCII t) =
+    LOk (LStatement [123; 45; 45]%N (LAtom [] [114; 111; 98]%N)
+                    (LCompound [47]%N [LAtom [95]%N []; LAtom [43]%N [48; 55]%N])) /\
+  lex_then_fold std_alnum LEX_ASCII FORMAT_ASCII (render FORMAT_ASCII t) =
+    FOk (TBox2 Inheritance (TSet SetExtension [TName Word [114; 111; 98]%N]) (TImg ImageExtension 0 [TNum Interval 7])) /\
+  of_door unit (parse_term unit std_alnum FORMAT_ASCII (new_state unit (render FORMAT_ASCII t))) =
+    FOk (TBox2 Inheritance (TSet SetExtension [TName Word [114; 111; 98]%N]) (TImg ImageExtension 0 [TNum Interval 7])).
+Proof. vm_compute. repeat split; reflexivity. Qed.
+
+(* Unicode whitespace (tab, no-break space, ideographic space, line separator) between the tokens of the
+   space-free Han text of ex_tree: the lexical pipeline still returns the meaning *)
+Example ex_agree_unicode_ws :
+  let t := ex_tree 0 in
+  let s := render FORMAT_HAN t in
+  let s' := take 1 s ++ [9; 160]%N ++ take 3 (drop 1 s) ++ [12288]%N ++ drop 4 s ++ [8232]%N in
+  match odesugar t with
+  | Some v => fres_is v (lex_then_fold std_alnum LEX_HAN FORMAT_HAN s') && negb (str_eqb s s')
+  | None => false
+  end = true.
+Proof. vm_compute. reflexivity. Qed.
+
+(* why BOTH name conditions are needed (Han): `「a具 有值」` -- with the space the enum parser reads the
+   name `a具` and the copula `有` (property); the lexical parser filters the space first and reads the
+   name `a` and the copula `具有` (instance-property).  unamb holds for the tree as written, fails for
+   the tree without spaces, and the two pipelines return DIFFERENT values. *)
+Example ex_han_space_disagree :
+  let t := SStmt arm_property 0 1 0 0 (SAtom arm_word [97; 20855]%N) (SAtom arm_word [20540]%N) in
+  SstOk.unamb std_alnum FORMAT_HAN t [] = true /\ SstOk.unamb std_alnum FORMAT_HAN (respace 0 t) [] = false /\
+  of_door unit (parse_term unit std_alnum FORMAT_HAN (new_state unit (render FORMAT_HAN t))) =
+    FOk (TBox2 Inheritance (TName Word [97; 20855]%N) (TSet SetIntension [TName Word [20540]%N])) /\
+  lex_then_fold std_alnum LEX_HAN FORMAT_HAN (render FORMAT_HAN t) =
+    FOk (TBox2 Inheritance (TSet SetExtension [TName Word [97]%N]) (TSet SetIntension [TName Word [20540]%N])).
+Proof. vm_compute. repeat split; reflexivity. Qed.
